@@ -19,28 +19,6 @@ spec fn lang_ok(re: Regex, c: Map<RegexId, DFAId>, dfa: DFA) -> bool {
     forall|w: Seq<Inp>| #[trigger] dfa_accepts(dfa, w) == pos_accepts(re, c, w)
 }
 
-spec fn dfa_step(dfa: DFA, q: u32, a: Inp) -> Option<u32> {
-    if exists|i: int| 0 <= i < dfa.inputs@.len() && dfa.inputs@[i] == a {
-        let i = choose|i: int| 0 <= i < dfa.inputs@.len() && dfa.inputs@[i] == a;
-        if dfa.transitions@.contains_key(q) && dfa.transitions@[q].contains_key(id_of(i)) { Some(dfa.transitions@[q][id_of(i)]) } else { None }
-    } else { None }
-}
-
-spec fn dfa_run(dfa: DFA, w: Seq<Inp>) -> Option<u32>
-    decreases w.len()
-{
-    if w.len() == 0 { Some(dfa.starting_state) } else {
-        match dfa_run(dfa, w.drop_last()) {
-            None => None,
-            Some(q) => dfa_step(dfa, q, w.last()),
-        }
-    }
-}
-
-spec fn dfa_accepts(dfa: DFA, w: Seq<Inp>) -> bool {
-    dfa_run(dfa, w) is Some && dfa.accepting_states@.contains(dfa_run(dfa, w)->0)
-}
-
 /// lock step: the automaton is in the state numbered reach(w), or stuck exactly when reach(w) is empty
 proof fn lemma_run_tracks_reach(re: Regex, c: Map<RegexId, DFAId>, dfa: DFA, sid: Map<ISet<u32>, u32>, w: Seq<Inp>)
     requires subset_ok(re, c, dfa, sid)
